@@ -128,9 +128,9 @@ def run_callback_now(eng, d, target, fr, node):
         fi = getattr(target.payload[0], 'payload', None)
     c = CONTRACTS.get(getattr(fi, 'qualname', None))
     if c is not None and c.extra.get('entry_point'):
+        # (the chain's current result after our callback is whatever the callback produced: `failed` is havocked with
+        # the rest of the mutable heap inside apply_entry_point)
         eng.B.apply_entry_point(eng, fi, c, 'callback of fired Deferred')
-        # the chain's current result after our callback: success unless it raised / returned a failure
-        H.heap_write(eng, d, 'failed', V(BOOL, z3.FreshConst(z3.BoolSort(), 'cbfailed')))
     else:
         H.external_call(eng, 'callback on fired Deferred')
 
